@@ -241,13 +241,74 @@ func leaseGaps(evs []tapEv, end time.Duration) (string, bool) {
 	return "", false
 }
 
+// guardTenure watches a tenure that is already running (its storage traffic goes through t) for hold:
+// a contender of another provider spins TryLock and must never get the lock, the record must stay in the
+// store, and the tenure's lease must never have a gap.
+func guardTenure(e *env, sc scen, t *tap, spinner gsync.Locker, hold time.Duration, label string) []finding {
+	L := sc.L
+	var out []finding
+	var mu sync.Mutex
+	stop := make(chan struct{})
+	var wg sync.WaitGroup
+	wg.Add(1)
+	go func() {
+		defer wg.Done()
+		for {
+			select {
+			case <-stop:
+				return
+			default:
+			}
+			if spinner.TryLock(context.Background()) {
+				mu.Lock()
+				out = append(out, finding{sig: "lease/contender-acquired-while-held/" + label, what: fmt.Sprintf("%s L=%v: TryLock of a contender succeeded at %v during the tenure of a caller that had acquired after waiting", sc.Kind, L, time.Since(e.base)), w: map[string]any{"scenario": sc, "tap": t.events()}})
+				mu.Unlock()
+				spinner.Unlock()
+				return
+			}
+			time.Sleep(L / 10)
+		}
+	}()
+	deadline := time.Now().Add(hold)
+	missing := time.Duration(0)
+	for time.Now().Before(deadline) {
+		if _, err := e.inner.Get(context.Background(), e.key); err != nil && missing == 0 {
+			missing = time.Since(e.base)
+		}
+		time.Sleep(L / 4)
+	}
+	end := time.Since(e.base)
+	close(stop)
+	wg.Wait()
+	evs := t.events()
+	if missing != 0 {
+		out = append(out, finding{sig: "lease/record-gone-while-held/" + label, what: fmt.Sprintf("%s L=%v: the lock record of a caller that acquired after waiting was not in the store at %v although it still held the lock (until %v)", sc.Kind, L, missing, end), timeBound: true, w: map[string]any{"scenario": sc, "tap": evs}})
+	}
+	// only the part of the log that belongs to the watched tenure: from its successful Create on
+	start := -1
+	for i, ev := range evs {
+		if ev.Op == "Create" && ev.Err == "nil" {
+			start = i
+		}
+	}
+	if start >= 0 {
+		if msg, bad := leaseGaps(evs[start:], end); bad {
+			out = append(out, finding{sig: "lease/gap/" + label, what: fmt.Sprintf("%s L=%v: %s", sc.Kind, L, msg), timeBound: true, w: map[string]any{"scenario": sc, "tap": evs}})
+		}
+		if first := evs[start]; first.Exp < first.Ret+L*3/4 {
+			out = append(out, finding{sig: "lease/short-first-lease/" + label, what: fmt.Sprintf("%s L=%v: the record created at %v for a caller that had waited expires at %v: its first lease is shorter than 3/4 of the lease period", sc.Kind, L, first.Ret, first.Exp), w: map[string]any{"scenario": sc, "tap": evs}})
+		}
+	}
+	return out
+}
+
 // hold runs S1/S2: a holder keeps the lock for hold while contenders try; returns findings.
 func holdScenario(sc scen, hold time.Duration) []finding {
 	e := newEnv()
 	L := sc.L
 	tH, pH := e.provider(L)
 	_, pC := e.provider(L)
-	_, pC2 := e.provider(L)
+	tC2, pC2 := e.provider(L)
 	defer pH.Shutdown()
 	defer pC.Shutdown()
 	defer pC2.Shutdown()
@@ -285,15 +346,21 @@ func holdScenario(sc scen, hold time.Duration) []finding {
 			time.Sleep(L / 10)
 		}
 	}()
-	go func() { // contender parked in LockWithCtx
+	c2Got := make(chan bool, 1)
+	c2Release := make(chan struct{})
+	go func() { // contender parked in LockWithCtx; it takes over after the holder and then holds itself
 		defer wg.Done()
 		if c2.LockWithCtx(ctx) == nil {
 			if holders.Add(1) > 1 {
 				add(finding{sig: "lease/contender-acquired-while-held/LockWithCtx", what: fmt.Sprintf("%s L=%v: a parked LockWithCtx of a contender returned nil at %v while the holder still holds", sc.Kind, L, time.Since(e.base)), w: sc})
 			}
+			c2Got <- true
+			<-c2Release
 			holders.Add(-1)
 			c2.Unlock()
+			return
 		}
+		c2Got <- false
 	}()
 	// probe of the record itself
 	deadline := time.Now().Add(hold)
@@ -308,11 +375,24 @@ func holdScenario(sc scen, hold time.Duration) []finding {
 		missing = time.Since(e.base)
 	}
 	end := time.Since(e.base)
-	holders.Add(-1)
-	cancel()
 	close(stop)
-	wg.Wait()
+	holders.Add(-1)
 	h.Unlock()
+	// the parked contender (it has waited for the whole hold) takes over and holds for 3 L under the same monitors
+	select {
+	case got := <-c2Got:
+		if got {
+			out2 := guardTenure(e, sc, tC2, c1, 3*L, sc.Kind+"-second-tenure")
+			omu.Lock()
+			out = append(out, out2...)
+			omu.Unlock()
+		}
+	case <-time.After(L + 10*time.Second):
+		add(finding{sig: "lease/hand-off-missing/" + sc.Kind, what: fmt.Sprintf("%s L=%v: %v after the holder unlocked the parked contender still has not acquired", sc.Kind, L, L+10*time.Second), timeBound: true, w: sc})
+	}
+	close(c2Release)
+	cancel()
+	wg.Wait()
 	evs := tH.events()
 	if missing != 0 {
 		add(finding{sig: "lease/record-gone-while-held/" + sc.Kind, what: fmt.Sprintf("%s L=%v k=%d: the lock record was not in the store at %v although the holder still held the lock (held until %v)", sc.Kind, L, sc.K, missing, end), timeBound: true, w: map[string]any{"scenario": sc, "tap": evs}})
@@ -351,9 +431,12 @@ func deathScenario(sc scen) []finding {
 	e := newEnv()
 	L := sc.L
 	tH, pH := e.provider(L)
-	_, pC := e.provider(L)
+	tC, pC := e.provider(L)
 	defer pC.Shutdown()
 	h, c := pH.NewLocker("x"), pC.NewLocker("x")
+	_, pS := e.provider(L)
+	defer pS.Shutdown()
+	spin := pS.NewLocker("x")
 	var out []finding
 	h.Lock()
 	acq := make(chan time.Duration, 1)
@@ -397,6 +480,8 @@ func deathScenario(sc scen) []finding {
 	if at > lastE+L+2*time.Second {
 		out = append(out, finding{sig: "lease/released-late-after-holder-death", what: fmt.Sprintf("S3 L=%v: the dead holder's last lease ran out at %v, the waiting contender acquired only at %v", L, lastE, at), timeBound: true, w: map[string]any{"scenario": sc, "tap": evs}})
 	}
+	// the caller that took over (after waiting for more than a lease period) must be protected itself
+	out = append(out, guardTenure(e, sc, tC, spin, 3*L, "S3-second-tenure")...)
 	c.Unlock()
 	tH.dead.Store(false)
 	h.Unlock() // the zombie finally goes away (its Delete finds nothing)
@@ -508,7 +593,7 @@ func runScenario(sc scen) []finding {
 func TestCheck(t *testing.T) {
 	run := report.New("C05", "fault_enumeration")
 	defer run.Finish(t)
-	run.Rule("real-clock scenarios with lease L set through a hook, one storage tap per provider: S1 hold for 6 L (20 L thorough) with a TryLock-spinning and a parked contender; S2 the k-th renewal CAS answered by an injected error without executing, for every k<=K; S3 the holder's storage access dies at a phase of the renewal cycle and a parked contender must take over after the last lease ran out; S4 Unlock after hold times around multiples of L/2 with renewals delayed 0-5 ms (Unlock racing a renewal), then nothing / re-acquisition by the same / another Locker. Monitors over the tap log and probes of the record: exclusion, lease gap (each renewal completes before the lease it renews runs out), record present while held, renewal chain survives a transient error, take-over never before and at most L+2 s after the last lease ran out, at most one failing stale renewal after Unlock. distinct = distinct (scenario kind, L, k / phase / re-acquisition) instances run")
+	run.Rule("real-clock scenarios with lease L set through a hook, one storage tap per provider: S1 hold for 6 L (20 L thorough) with a TryLock-spinning and a parked contender; S2 the k-th renewal CAS answered by an injected error without executing, for every k<=K; S3 the holder's storage access dies at a phase of the renewal cycle and a parked contender must take over after the last lease ran out; S4 Unlock after hold times around multiples of L/2 with renewals delayed 0-5 ms (Unlock racing a renewal), then nothing / re-acquisition by the same / another Locker. In S1-S3 the caller that takes over after waiting holds for 3 L under the same monitors (its first lease must be a full one). Monitors over the tap log and probes of the record: exclusion, lease gap (each renewal completes before the lease it renews runs out), record present while held, renewal chain survives a transient error, take-over never before and at most L+2 s after the last lease ran out, at most one failing stale renewal after Unlock. distinct = distinct (scenario kind, L, k / phase / re-acquisition) instances run")
 	run.Assume("two-sided time bounds are guarded by a stall canary: a bound broken while the canary saw a stall above L/8 is repeated (up to 3 times) and only a repeat without stall counts")
 	run.Assume("a transient renewal failure is an attempt that was not applied (request lost); unacknowledged but applied renewals are not generated")
 
